@@ -143,3 +143,27 @@ M('C12', 'cylinder-rewind', 'src/geom3/mesh.rs', "            faces.push([(i * 2
 M('C12', 'box-flip-face', 'src/geom3/mesh.rs', "        [2, 7, 6],", "        [2, 6, 7],", 'box_geom')
 M('C12', 'box-wrong-param', 'src/geom3/mesh.rs', "        Point3::new(width, height, 0.0),", "        Point3::new(width, depth, 0.0),", 'box_geom:lattice')
 M('C12', 'neutral-cylinder-angle-reassoc', 'src/geom3/mesh.rs', "let angle = i as f64 * 2.0 * std::f64::consts::PI / (steps as f64);", "let angle = 2.0 * std::f64::consts::PI * (i as f64) / (steps as f64);", kind='neutral')
+
+# ---------------------------------------------------------------- C14
+FIF = 'src/geom3/mesh/filtering.rs'
+MUTANTS.append({'prop': 'C14', 'name': 'memo-caches-face-dependent', 'expect': 'MEMO', 'kind': 'mutant', 'edits': [
+    (FIF, """                if check_planar {
+                    Some(self.angle_tol.map(|_| rn))""", """                if check_planar && face_normal_hint.map(|f| f.angle(&rn) < 1.0).unwrap_or(true) {
+                    Some(self.angle_tol.map(|_| rn))"""),
+    (FIF, "    fn vertex_check(&mut self, vertex_index: u32) -> Option<Option<UnitVec3>> {", "    fn vertex_check(&mut self, vertex_index: u32, face_normal_hint: Option<UnitVec3>) -> Option<Option<UnitVec3>> {"),
+    (FIF, "        match self.vertex_check(vertex_index) {", "        match self.vertex_check(vertex_index, face_normal) {")]})
+M('C14', 'mutate-remove-polarity', FIF, "                self.indices.retain(|&i| !predicate(i, self.mesh));", "                self.indices.retain(|&i| predicate(i, self.mesh));", 'mutate:Remove')
+M('C14', 'mutate-add-ignores-predicate', FIF, "                    if !self.indices.contains(&i) && predicate(i, self.mesh) {", "                    if !self.indices.contains(&i) || predicate(i, self.mesh) {", 'mutate:Add')
+M('C14', 'passlist-keep-inverted', FIF, "                self.indices.retain(|i| check_set.contains(i));", "                self.indices.retain(|i| !check_set.contains(i));", 'mutate_pass_list:Keep')
+M('C14', 'passlist-remove-grows', FIF, """                for i in pass_list {
+                    self.indices.remove(&i);
+                }""", """                for i in pass_list {
+                    self.indices.insert(i);
+                }""", 'mutate_pass_list')
+M('C14', 'to_check-add-selection', FIF, "                .filter(|i| !self.indices.contains(i))", "                .filter(|i| self.indices.contains(i))", 'to_check')
+M('C14', 'near-mesh-wrong-face-normal', FIF, """                    check.near_check(tri[0], face.normal())
+                        || check.near_check(tri[1], face.normal())""", """                    check.near_check(tri[0], face.normal())
+                        || check.near_check(tri[1], self.mesh.shape.triangle(0).normal())""", 'near_mesh:face-normal')
+M('C14', 'create-flip-winding', FIF, "                [map_back[&t[0]], map_back[&t[1]], map_back[&t[2]]]", "                [map_back[&t[0]], map_back[&t[2]], map_back[&t[1]]]", 'create_from_indices:winding')
+M('C14', 'unique-vertices-unsorted', FIF, "        keep_order.sort_unstable();\n", "", 'unique_vertices:sorted')
+M('C14', 'unique-vertices-two', FIF, "            to_save.insert(t[2]);\n", "", 'unique_vertices:three')
